@@ -32,6 +32,8 @@ def make_case(rng, tier):
         s1, s2, meta = nw.gen_pair(rng, tier, kinds=["hull", "box", "mesh"], stream="gap",
                                    gap=rng.choice([0.0, 1e-9, -1e-9, 1e-3, -1e-3, -0.1, -0.3, 0.05]), margin_prob=0.05)
         meta["stream"] = "polytope-contact"
+    elif rng.random() < 0.12:
+        s1, s2, meta = gen_extreme(rng)
     else:
         s1, s2, meta = nw.gen_pair(rng, tier)
     kw = {}
@@ -39,6 +41,49 @@ def make_case(rng, tier):
     if far > 250.0 or meta["stream"] == "wide":
         kw["max_distance_squared"] = 1e300     # clipping disabled (property: "or clipping disabled")
     return dict(c1=s1, c2=s2, ops=[dict(fn="gjk_jolt", kw=kw)], meta=meta)
+
+
+def gen_extreme(rng):
+    """Two input classes inside the declared domain that drive the Jolt simplex solver into thin
+    simplices (found by the C12/C20 and C09 checks): (a) flat / needle primitives (size ratio up to
+    100), (b) a small smooth collider in front of the interior of a face of a big hull."""
+    import math
+    if rng.random() < 0.5:
+        k1 = rng.choice(["ellipsoid", "ellipsoid", "box", "cylinder", "capsule", "ellipse"])
+        s1 = nw.gen_collider(rng, k1, "random", spread=2.0, margin_prob=0.0)
+        big, small = 10 ** rng.uniform(0, 0.7), 10 ** rng.uniform(-1.7, -1.0)
+        if k1 == "ellipsoid":
+            s1["radii"] = rng.sample([big, small, 10 ** rng.uniform(-1, 0.5)], 3)
+        elif k1 == "box":
+            s1["size"] = rng.sample([big, small, 10 ** rng.uniform(-1, 0.5)], 3)
+        elif k1 == "cylinder":
+            s1["radius"], s1["length"] = rng.sample([big, small], 2)
+        elif k1 == "capsule":
+            s1["radius"], s1["height"] = small, big
+        else:
+            s1["radii"] = [big, small]
+        s2 = nw.gen_collider(rng, rng.choice(nw.KINDS), "moderate", spread=3.0, margin_prob=0.05)
+        stream = "flat-needle"
+    else:
+        s2 = nw.gen_collider(rng, rng.choice(["hull", "mesh"]), "random", spread=1.0, margin_prob=0.0)
+        V = np.array(s2["vertices"], float)
+        V *= (10 ** rng.uniform(0.8, 1.6)) / max(1e-9, float(np.max(np.linalg.norm(V - V.mean(axis=0), axis=1))))
+        s2["vertices"] = V.tolist()
+        s1 = nw.gen_collider(rng, rng.choice(["sphere", "cylinder", "cone", "capsule", "ellipse", "disk", "ellipsoid"]),
+                             "moderate", spread=0.5, margin_prob=0.0)
+        for key in ("radius", "length", "height"):
+            if key in s1:
+                s1[key] = 10 ** rng.uniform(-1.5, -0.3)
+        if "radii" in s1:
+            s1["radii"] = [10 ** rng.uniform(-1.5, -0.3) for _ in s1["radii"]]
+        u = nw.rand_unit(rng)
+        g = rng.choice([0.5, 1.0, 3.0, 9.0])
+        shift = g + nw.support_value(s2, u) + nw.support_value(s1, -u)
+        s1 = nw.translate_spec(s1, (nw.center_of(s2) - nw.center_of(s1)) * 0 + shift * u)
+        stream = "small-vs-big-face"
+    meta = dict(stream=stream, kinds=[s1["kind"], s2["kind"]])
+    meta["L"] = nw.scene_scale([s1, s2])
+    return s1, s2, meta
 
 
 def cert_expr(case, r):
@@ -145,7 +190,12 @@ def run(tier, seed, replay=None):
                 why = explain(c, r)
             except Exception as e:  # noqa
                 why = dict(error=str(e)[:200])
-            R.failure(f"dist_cert rejected the result d={r['d']!r}: {why}", dict(c, result=r), site="gjk_distance_jolt")
+            kid = known_solver_class(c, R)
+            if kid is not None and any(k["id"] == "F-J2" for k in R.known):
+                R.known_finding("F-J2", next(k["what"] for k in R.known if k["id"] == "F-J2") + f" [this run: {kid}]")
+                R.cov["failures_matching_known_findings"] = R.cov.get("failures_matching_known_findings", 0) + 1
+            else:
+                R.failure(f"dist_cert rejected the result d={r['d']!r}: {why}", dict(c, result=r), site="gjk_distance_jolt")
     R.cov["programs"] = len(idx)
     R.cov["disagreements_checked"] = rejected
     R.cov["distinct_nontrivial"] = len(distinct)
@@ -157,6 +207,49 @@ def run(tier, seed, replay=None):
     if (R.corr_broken or R.proof_broken) and not R.violations and not replay:
         targeted_search(R, tier)
     return R.finish()
+
+
+def known_solver_class(case, R):
+    """Is a rejected distance answer explained by the recorded defect classes of the Jolt simplex
+    solver (known findings C18-JOLT-ILLCOND / C18-JOLT-EPS-ABS)?  The simplices the solver saw are
+    recovered by replaying the recorded support trace through Model/JoltLoop.v; for every iteration
+    the solver's actual output (minus the next search direction of the implementation) is compared
+    with the exact minimum-norm point (exact rationals) and classified by C18's own predicates.
+    Returns a description of the first iteration that is both wrong beyond 1e-9 relative and inside
+    a recorded class, else None."""
+    from . import c18 as C18
+    try:
+        tc, out, _ = run_traces([case])
+        if not out:
+            return None
+        o = out[0]["distance"]
+        n = min(len(o["p"]), len(o["q"]))
+        kw = case["ops"][0].get("kw", {})
+        tr = jc._trace(o["p"][:n], o["q"][:n])
+        ex = f"jolt_replay_y {cm.fhex(kw.get('tolerance', 1e-10))} {cm.fhex(kw.get('max_distance_squared', 100000.0))} {tr}"
+        val = jc.parse(cm.coq_eval_lines(PID, jc.HEADER, [ex], tag="simplices", per_file=1)[0])
+    except Exception as e:  # noqa
+        R.notes.append(f"known_solver_class could not be evaluated: {str(e)[:200]}")
+        return None
+    dirs = o["dirs"]
+    for i, Y in enumerate(val):
+        if len(Y) < 3 or i + 1 >= len(dirs):
+            continue
+        v = [-x for x in dirs[i + 1]]
+        try:
+            _, _, q = C18.oracle(Y)
+        except Exception:  # noqa
+            continue
+        nq = float(sum(x * x for x in q)) ** 0.5
+        nv = sum(x * x for x in v) ** 0.5
+        M = max(abs(x) for p in Y for x in p)
+        err_rel = abs(nv - nq) / max(1.0, M)
+        if err_rel <= 1e-9:
+            continue
+        ids, _ = C18.classify("jolt", "real:gjk-trace", Y, err_rel)
+        if ids:
+            return f"iteration {i}: solver returned |v| = {nv!r} for a {len(Y)}-point simplex whose minimum norm is {nq!r} ({'/'.join(ids)})"
+    return None
 
 
 def run_traces(cases):
